@@ -336,6 +336,7 @@ def check_C04(ctx):
 def check_C05(ctx):
     exec_family(ctx, "C05", nopar=True, mc=("flat", "batchseq"), mc_thorough=("flat2", "deps", "tl", "batch"))
     # running-time hints 1 and 3: the group-append path of the planner is part of the plans that are run
+    # (only parallel mode is forced: the model lets dispatch_seq take the groups in any order, the code takes storage order)
     exec_s2i(ctx, "C05", res="{1}" if ctx.quick() else "{1,2}", times="{1,3}", modes='{"par"}', maxforce=2000 if ctx.quick() else 30000)
 
 
